@@ -1526,6 +1526,13 @@ func (e *Engine) execRange(s *ast.RangeStmt, st *State, label string) *State {
 			}
 			body.vars[rangeWidthKey] = Value{size, types.Typ[types.Int]}
 			next = e.add(hk, size)
+			if !e.bv {
+				// one iteration is one rune: the rune count of the prefix grows by one (see utf8.RuneCountInString)
+				e.declareFun("runecnt", []string{"(Array Int Int)", e.isort(), e.isort()}, e.isort())
+				arr, off := sx("s_arr", coll.T), sx("s_off", coll.T)
+				e.assume("true", eq(sx("runecnt", arr, off, e.izero()), e.izero()))
+				e.assume(body.pc, eq(sx("runecnt", arr, off, next), e.add(sx("runecnt", arr, off, hk), e.ilit("1"))))
+			}
 		} else if keyObj != nil {
 			// range over int: key typed as the int type
 		}
